@@ -228,7 +228,20 @@ impl KeyValueStore {
                     if crate::verif::single_step() {
                         return Ok(());
                     }
+                    #[cfg(rescrv_blue_verif)]
+                    {
+                        if crate::verif::shutdown_requested(self.tree.verif_id()) {
+                            return Ok(());
+                        }
+                        crate::verif::park(self.tree.verif_id(), "needs_flush");
+                        crate::verif::emit("sched.flush.park", [state.imm_trigger, state.mem_seq_no, 0]);
+                    }
                     state = self.cnd_needs_memtable_flush.wait(state).unwrap();
+                    #[cfg(rescrv_blue_verif)]
+                    {
+                        let notified = crate::verif::unpark(self.tree.verif_id());
+                        crate::verif::emit("sched.flush.wake", [notified as u64, 0, 0]);
+                    }
                 }
                 let imm = Arc::clone(&state.mem);
                 let imm_log = Arc::clone(&state.mem_log);
@@ -345,6 +358,39 @@ impl KeyValueStore {
         Ok((drain(&mem)?, imm))
     }
 
+    /// Verification hook: which store threads sleep on which condition variable, read while
+    /// holding the `state` mutex and then the tree's `compaction` mutex (every wait and every
+    /// notification of the three condition variables happens under one of the two), with the
+    /// tree's `verif_status` and this store's `verif_state` from the same instant.  Observer only.
+    #[cfg(rescrv_blue_verif)]
+    #[allow(clippy::type_complexity)]
+    pub fn verif_parked(
+        &self,
+    ) -> (
+        Vec<crate::verif::Parked>,
+        (bool, bool, usize),
+        (u64, u64, u64, bool),
+    ) {
+        let state = self.state.lock().unwrap();
+        let (parked, status) = self.tree.verif_parked();
+        (
+            parked,
+            status,
+            (state.seq_no, state.mem_seq_no, state.imm_trigger, state.imm.is_some()),
+        )
+    }
+
+    /// Verification hook: make the flush and compaction loops return at the point where they would
+    /// sleep and wake the sleepers.
+    #[cfg(rescrv_blue_verif)]
+    pub fn verif_shutdown(&self) {
+        let state = self.state.lock().unwrap();
+        self.tree.verif_shutdown();
+        crate::verif::notify(self.tree.verif_id(), "needs_flush", false);
+        self.cnd_needs_memtable_flush.notify_all();
+        drop(state);
+    }
+
     /// Verification hook: the tree under this store.
     #[cfg(rescrv_blue_verif)]
     pub fn verif_tree(&self) -> &LsmTree {
@@ -371,6 +417,15 @@ impl KeyValueStore {
         mut lock_guard: MutexGuard<'b, KeyValueStoreState>,
     ) -> MutexGuard<'b, KeyValueStoreState> {
         lock_guard.imm_trigger = std::cmp::max(lock_guard.imm_trigger, lock_guard.mem_seq_no);
+        #[cfg(rescrv_blue_verif)]
+        crate::verif::emit(
+            "sched.flush.request",
+            [
+                lock_guard.imm_trigger,
+                lock_guard.mem_seq_no,
+                crate::verif::notify(self.tree.verif_id(), "needs_flush", true),
+            ],
+        );
         self.cnd_needs_memtable_flush.notify_one();
         lock_guard
     }
